@@ -85,7 +85,7 @@ def session_case(draw):
             "nonces": [draw(nonce_spec()) for _ in range(n)],
             "inf": draw(st.sampled_from([None, None, None, None, "first", "second", "both", "both"])) if n >= 2 else None,
             "adaptor": draw(st.one_of(st.none(), st.none(), gens.seckey_valid, st.just("neg_r1"))),
-            "via_parse": draw(st.booleans()), "alias_adapt": draw(st.booleans()),
+            "via_parse": draw(st.booleans()), "alias_adapt": draw(st.booleans()), "off": draw(off_st), "off2": draw(off_st),
             "bad_tweak": draw(st.one_of(st.none(), st.fixed_dictionaries({"stage": st.integers(0, 6), "kind": st.sampled_from(["n", "n+1", "max", "neg_cur", "neg_cur"]),
                                                                           "xonly": st.booleans()}))),
             "cross": draw(st.lists(st.fixed_dictionaries({"i": st.integers(0, 15), "j": st.integers(0, 15),
@@ -94,6 +94,20 @@ def session_case(draw):
 
 
 # ------------------------------------------------------------------ helpers
+# byte offset of an object from a 16-byte boundary: all musig / extrakeys opaque types are unsigned char arrays (alignment requirement 1)
+off_st = st.sampled_from([0, 0, 8, 1, 1, 3, 5, 7, 7, 9, 9, 11, 13, 15, 15, 2, 4, 6, 10, 12, 14])
+
+
+def obuf(n, off, init=None):
+    """n-byte object whose address is congruent to `off` modulo 16 (view into a larger vf.lib.buf; the view keeps the base alive)"""
+    base = buf(n + 32)
+    shift = (off - ctypes.addressof(base)) % 16
+    v = (ctypes.c_char * n).from_buffer(base, shift)
+    if init is not None:
+        ctypes.memmove(v, bytes(init), len(init))
+    return v
+
+
 def ser_pubnonce(lib, pn):
     o = buf(66)
     assert lib.dll.secp256k1_musig_pubnonce_serialize(lib.ctx, o, pn) == 1
@@ -126,6 +140,12 @@ def run_session(env, case):
     d = lib.dll
     ctx = lib.ctx
     classes = []
+    off, off2 = case.get("off", 0), case.get("off2", 0)
+
+    def ob(n, init=None):
+        # secret nonce, public nonce and randomness objects at offset `off`, every other object at `off2` (mod 16)
+        return obuf(n, off if n in (132, 32) else off2, init)
+    classes.append("offset:" + ("odd" if off & 1 else "even"))
     idx = case["idx"]
     n = len(idx)
     sks = [case["keys"][i] for i in idx]
@@ -135,9 +155,9 @@ def run_session(env, case):
     # ---- signers: public keys and keypairs through the library's constructors
     pkobjs, kps, pk33 = [], [], []
     for sk in sks:
-        r, kp = lib.keypair_create(ec.i2b(sk))
-        env.require(r == 1, "keypair_create failed for a valid key")
-        pk = buf(64)
+        kp = ob(96)
+        env.require(d.secp256k1_keypair_create(ctx, kp, ec.i2b(sk)) == 1, "keypair_create failed for a valid key")
+        pk = ob(64)
         env.require(d.secp256k1_keypair_pub(ctx, pk, kp) == 1, "keypair_pub failed")
         ref = ec.ser33(ec.mulg(sk))
         env.require(lib.pubkey_serialize(pk) == ref, "public key differs from the reference")
@@ -155,7 +175,7 @@ def run_session(env, case):
         use_cache = stage is not None and caches is not None
         if use_cache:
             stage = min(stage, len(caches) - 1)
-        sec, pub = buf(132), buf(132)
+        sec, pub = ob(132), ob(132)
         m = msg if sp["msg"] else None
         extra = bytes.fromhex(sp["extra"]) if sp["extra"] else None
         cache = caches[stage] if use_cache else None
@@ -171,7 +191,7 @@ def run_session(env, case):
             rb = bytes.fromhex(sp["rand"])
             if not any(rb):
                 rb = bytes(31) + b"\x01"
-            rbuf = buf(32, rb)
+            rbuf = ob(32, rb)
             skarg = ec.i2b(sks[i]) if sp["sk"] else None
             r = d.secp256k1_musig_nonce_gen(ctx, sec, pub, rbuf, skarg, pkobjs[i], m, cache, extra)
             ref = M.nonce_gen_internal(rb, pk33[i], skarg, aggpk, m, extra)
@@ -211,8 +231,8 @@ def run_session(env, case):
         classes.append("sorted")
     kctx = M.key_agg(klist)
     env.require(kctx is not None, "reference key aggregation failed (infinity): negligible")
-    cache = buf(197)
-    xo = buf(64)
+    cache = ob(197)
+    xo = ob(64)
     mode = case["agg_args"]
     if mode == "both":
         r = d.secp256k1_musig_pubkey_agg(ctx, xo, cache, ptrs, c_size_t(n))
@@ -229,7 +249,7 @@ def run_session(env, case):
         env.require(lib.xonly_serialize(xo) == kctx.xonly(), "aggregate x-only key differs from BIP-327 KeyAgg (%s)" % keydesc, ref=kctx.xonly().hex())
 
     def check_cache_key(kc, what):
-        full = buf(64)
+        full = ob(64)
         env.require(d.secp256k1_musig_pubkey_get(ctx, full, cache) == 1, "pubkey_get failed " + what)
         got = lib.pubkey_serialize(full)
         env.require(got == ec.ser33(kc.Q), "aggregate key in the cache differs from BIP-327 %s (%s)" % (what, keydesc), lib=got.hex(), ref=ec.ser33(kc.Q).hex())
@@ -248,7 +268,7 @@ def run_session(env, case):
     q = coeff_sum()
 
     # ---- tweaks (with snapshots of the cache after every stage)
-    caches = [buf(197, cache.raw)]
+    caches = [ob(197, cache.raw)]
     kctxs = [kctx]
     qs = [q]
     flips = 0
@@ -266,7 +286,7 @@ def run_session(env, case):
                 cand = ec.add(base, ec.mulg(v))
         t32 = ec.i2b(v)
         k2 = M.apply_tweak(kctx, t32, xonly)
-        out = buf(64) if tw["out"] else None
+        out = ob(64) if tw["out"] else None
         fn = d.secp256k1_musig_pubkey_xonly_tweak_add if xonly else d.secp256k1_musig_pubkey_ec_tweak_add
         r = fn(ctx, out, cache, t32)
         if v == 0:
@@ -286,7 +306,7 @@ def run_session(env, case):
             env.require(lib.pubkey_serialize(out) == ec.ser33(kctx.Q), "tweak output key differs from BIP-327 ApplyTweak (stage %d, xonly=%s, key was %s)" % (
                 ti, xonly, "odd" if g != 1 else "even/plain"), ref=ec.ser33(kctx.Q).hex())
         check_cache_key(kctx, "after tweak %d (%s)" % (ti, "x-only" if xonly else "plain"))
-        caches.append(buf(197, cache.raw))
+        caches.append(ob(197, cache.raw))
         kctxs.append(kctx)
         qs.append(q)
     assert ec.mulg(q) == kctx.Q, "harness: dlog tracking"
@@ -305,7 +325,7 @@ def run_session(env, case):
     bt = case["bad_tweak"]
     if bt is not None:
         stg = min(bt["stage"], len(caches) - 1)
-        cc = buf(197, caches[stg].raw)
+        cc = ob(197, caches[stg].raw)
         kc = kctxs[stg]
         if bt["kind"] == "neg_cur":
             g = N - 1 if (bt["xonly"] and not ec.has_even_y(kc.Q)) else 1
@@ -314,7 +334,7 @@ def run_session(env, case):
             tv = {"n": N, "n+1": N + 1, "max": gens.M256}[bt["kind"]]
         env.require(M.apply_tweak(kc, ec.i2b(tv), bt["xonly"]) is None, "harness: refused-tweak construction")
         fn = d.secp256k1_musig_pubkey_xonly_tweak_add if bt["xonly"] else d.secp256k1_musig_pubkey_ec_tweak_add
-        r = fn(ctx, buf(64), cc, ec.i2b(tv))
+        r = fn(ctx, ob(64), cc, ec.i2b(tv))
         env.require(r == 0, "invalid tweak accepted (%s, xonly=%s)" % (bt["kind"], bt["xonly"]))
         classes.append("bad_tweak:" + bt["kind"])
 
@@ -338,8 +358,8 @@ def run_session(env, case):
             crafted = c
             ks[c] = newk
             pnb = M.cbytes(ec.mulg(newk[0])) + M.cbytes(ec.mulg(newk[1]))
-            pn = buf(132)
-            env.require(d.secp256k1_musig_pubnonce_parse(ctx, pn, buf(66, pnb)) == 1, "pubnonce_parse rejected a valid pubnonce")
+            pn = ob(132)
+            env.require(d.secp256k1_musig_pubnonce_parse(ctx, pn, ob(66, pnb)) == 1, "pubnonce_parse rejected a valid pubnonce")
             env.require(ser_pubnonce(lib, pn) == pnb, "pubnonce parse/serialize round trip")
             nonce_state[c] = [None, pn, ec.i2b(newk[0]) + ec.i2b(newk[1]) + pk33[c], pnb]
             classes.append("inf:" + inf)
@@ -349,7 +369,7 @@ def run_session(env, case):
     # ---- nonce aggregation
     pubnonces = [ns[3] for ns in nonce_state]
     aggref = M.nonce_agg(pubnonces)
-    agg = buf(132)
+    agg = ob(132)
     env.require(d.secp256k1_musig_nonce_agg(ctx, agg, ptr_array([ns[1] for ns in nonce_state]), c_size_t(n)) == 1, "nonce_agg failed")
     aggb = ser_aggnonce(lib, agg)
     env.require(aggb == aggref, "aggregate nonce differs from BIP-327 NonceAgg", lib=aggb.hex(), ref=aggref.hex())
@@ -357,8 +377,8 @@ def run_session(env, case):
         classes.append("aggnonce_R1_inf")
     if aggref[33:] == bytes(33):
         classes.append("aggnonce_R2_inf")
-    agg2 = buf(132)
-    env.require(d.secp256k1_musig_aggnonce_parse(ctx, agg2, buf(66, aggb)) == 1, "aggnonce_parse rejected the serialised aggregate nonce", aggnonce=aggb.hex())
+    agg2 = ob(132)
+    env.require(d.secp256k1_musig_aggnonce_parse(ctx, agg2, ob(66, aggb)) == 1, "aggnonce_parse rejected the serialised aggregate nonce", aggnonce=aggb.hex())
     env.require(ser_aggnonce(lib, agg2) == aggb, "aggnonce parse/serialize round trip")
     if case["via_parse"]:
         agg = agg2
@@ -381,7 +401,7 @@ def run_session(env, case):
     Tpk = lib.pubkey_from_point(T) if T is not None else None
 
     # ---- session
-    session = buf(133)
+    session = ob(133)
     env.require(d.secp256k1_musig_nonce_process(ctx, session, agg, msg, cache, Tpk) == 1, "nonce_process failed")
     rs = M.Session(aggref, kctx, msg, adaptor=T)
     par = c_int(7)
@@ -397,10 +417,10 @@ def run_session(env, case):
         sref = M.sign(nonce_state[i][2], sks[i], rs)
         env.require(sref is not None, "harness: reference signer failed")
         if i == crafted:
-            ps = buf(36)
+            ps = ob(36)
             env.require(d.secp256k1_musig_partial_sig_parse(ctx, ps, ec.i2b(sref)) == 1, "partial_sig_parse rejected a scalar < n")
         else:
-            ps = buf(36)
+            ps = ob(36)
             ill0 = lib.illegal()
             r = d.secp256k1_musig_partial_sign(ctx, ps, nonce_state[i][0], kps[i], cache, session)
             env.require(r == 1 and lib.illegal() == ill0, "partial_sign failed for an honest signer (%d): %s" % (i, lib.cbmsg()), signer=i)
@@ -434,31 +454,31 @@ def run_session(env, case):
         if what == "msg":
             if session2 is None:
                 m2 = bytes.fromhex(case["msg2"])
-                session2 = buf(133)
+                session2 = ob(133)
                 env.require(d.secp256k1_musig_nonce_process(ctx, session2, agg, m2, cache, Tpk) == 1, "nonce_process (second message) failed")
                 rs2 = M.Session(aggref, kctx, m2, adaptor=T)
             ses_o, ses_r = session2, rs2
         if what == "noadaptor":
             if T is None:
                 continue
-            ses_o = buf(133)
+            ses_o = ob(133)
             env.require(d.secp256k1_musig_nonce_process(ctx, ses_o, agg, msg, cache, None) == 1, "nonce_process (no adaptor) failed")
             ses_r = M.Session(aggref, kctx, msg)
         if what in ("neg", "plus1"):
             sv = ec.b2i(sig_b)
             sv = (N - sv) % N if what == "neg" else (sv + 1) % N
             sig_b = ec.i2b(sv)
-            sig_o = buf(36)
+            sig_o = ob(36)
             env.require(d.secp256k1_musig_partial_sig_parse(ctx, sig_o, sig_b) == 1, "partial_sig_parse rejected a scalar < n")
         exp = M.partial_sig_verify(sig_b, pn_b, pk_b, ses_r)
         v = d.secp256k1_musig_partial_sig_verify(ctx, sig_o, pn_o, pk_o, cache, ses_o)
         env.require(v == (1 if exp else 0), "partial_sig_verify verdict %d, BIP-327 says %d (signature of signer %d checked with %s of signer %d)" % (v, exp, i, what, j),
                     what=what, i=i, j=j)
         classes.append("cross:%s:%s" % (what, "accept" if exp else "reject"))
-    env.require(d.secp256k1_musig_partial_sig_parse(ctx, buf(36), ec.i2b(N)) == 0, "partial_sig_parse accepted n")
+    env.require(d.secp256k1_musig_partial_sig_parse(ctx, ob(36), ec.i2b(N)) == 0, "partial_sig_parse accepted n")
 
     # ---- aggregation and the final signature
-    sig = buf(64)
+    sig = ob(64)
     env.require(d.secp256k1_musig_partial_sig_agg(ctx, sig, session, ptr_array(psigs), c_size_t(n)) == 1, "partial_sig_agg failed")
     sigref = M.partial_sig_agg(psb, rs)
     env.require(sig.raw == sigref, "aggregate signature differs from BIP-327 PartialSigAgg (final nonce %s, tacc %s, Q %s)" % (
@@ -481,11 +501,11 @@ def run_session(env, case):
     if T is not None:
         t32 = ec.i2b(t_ad)
         if case["alias_adapt"]:
-            final = buf(64, sig.raw)
+            final = ob(64, sig.raw)
             r = d.secp256k1_musig_adapt(ctx, final, final, t32, c_int(par.value))     # documented: sig64 may alias pre_sig64
             classes.append("adapt_in_place")
         else:
-            final = buf(64)
+            final = ob(64)
             r = d.secp256k1_musig_adapt(ctx, final, sig, t32, c_int(par.value))
         env.require(r == 1, "musig_adapt failed")
         fref = M.adapt(sigref, t32, rs.nonce_parity())
@@ -493,13 +513,13 @@ def run_session(env, case):
         if not rs.R_was_inf:
             env.require(lib.schnorr_verify(final.raw, msg, xq) == 1 and bip340.verify(kctx.xonly(), msg, fref), "adapted signature of an honest session is invalid (parity %d)" % par.value)
             classes.append("adapted_valid_parity%d" % par.value)
-        tout = buf(32)
+        tout = ob(32)
         env.require(d.secp256k1_musig_extract_adaptor(ctx, tout, final, sig, c_int(par.value)) == 1, "extract_adaptor failed")
         env.require(tout.raw == t32, "extract_adaptor(adapt(pre, t)) != t (parity %d)" % par.value, lib=tout.raw.hex())
-        again = buf(64)
+        again = ob(64)
         env.require(d.secp256k1_musig_adapt(ctx, again, sig, tout, c_int(par.value)) == 1 and again.raw == final.raw, "adapt(pre, extract(sig, pre)) != sig")
         # the wrong parity must give a different (invalid) signature unless t = -t
-        wrong = buf(64)
+        wrong = ob(64)
         d.secp256k1_musig_adapt(ctx, wrong, sig, t32, c_int(1 - par.value))
         env.require(wrong.raw == M.adapt(sigref, t32, 1 - rs.nonce_parity()), "adapt with the other parity differs from the reference")
     env.require(lib.illegal() == 0 and lib.errors() == 0, "a callback fired during a session that uses only valid arguments: " + lib.cbmsg())
@@ -513,7 +533,7 @@ def run_session(env, case):
 
 TESTS = [
     Test("session", session_case, run_session, quick=1200, thorough=20000, max_workers=8,
-         must_cover=["R_inf_G", "xonly_on_odd", "gacc_neg_final", "counter_hi", "second_key_late", "dup_keys", "adaptor", "parity0", "parity1",
+         must_cover=["offset:odd", "offset:even", "R_inf_G", "xonly_on_odd", "gacc_neg_final", "counter_hi", "second_key_late", "dup_keys", "adaptor", "parity0", "parity1",
                      "inf:first", "inf:second", "inf:both", "aggnonce_R1_inf", "aggnonce_R2_inf", "opt_absent:seckey", "opt_absent:msg", "opt_absent:cache",
                      "opt_absent:extra", "nonce_cache_after_tweak", "nonce_before_keyagg", "sorted", "adapted_valid_parity0", "adapted_valid_parity1",
                      "bad_tweak:neg_cur", "final_valid", "cross:key:reject", "cross:msg:reject", "n=9-16", "tweaked_final_odd"]),
